@@ -232,6 +232,117 @@ def obs_rdf(triples):
     return items
 
 
+
+# ---------------------------------------------------------------------------
+# whole Mermaid charts under the options of to_mermaid_flowchart
+# ---------------------------------------------------------------------------
+EDGE_T_NAMES = "{from_id}>{to_id}|{from_node.name}|{to_node.name}"
+_EDGE_T_NAMES_RE = re.compile(r"^(\d+)>(\d+)\|([^|]*)\|([^|]*)$")
+NODE_T_BRACKET = "<{node.name}>"
+
+CHART_OPTS = [
+    dict(md=True, dir="TD", title=True, headers=None, add=True, uniq=True, nt=None, et=None),
+    dict(md=False, dir="LR", title="My chart", headers=["%% one", "classDef x fill:#f9f"], add=False, uniq=True, nt=None, et=None),
+    dict(md=True, dir="BT", title=False, headers=[], add=True, uniq=False, nt=NODE_T_BRACKET, et=EDGE_T_NAMES),
+    dict(md=False, dir="RL", title="", headers=None, add=False, uniq=False, nt=None, et="{from_id} -.-> {to_id}"),
+    dict(md=True, dir="TB", title=None, headers=["%% h"], add=True, uniq=True, nt="{node.name}", et=EDGE_T_NAMES),
+    # malformed stream: a string edge_mapper gets no kind keyword; unknown fields
+    dict(md=True, dir="TD", title=True, headers=None, add=True, uniq=True, nt=None, et='{from_id}-- "{kind}" -->{to_id}'),
+    dict(md=False, dir="TD", title=True, headers=None, add=False, uniq=True, nt="{nope}", et=None),
+]
+
+
+def coq_mopts(o):
+    t = o["title"]
+    title = "TitleName" if t is True else (f"(TitleText {H.coq_text(t)})" if isinstance(t, str) and t else "TitleOff")
+    hs = H.coq_list(H.coq_text(h) for h in (o["headers"] or []))
+    return (f"(MO {H.coq_bool(o['md'])} {H.coq_text(o['dir'])} {title} {hs} {H.coq_bool(o['add'])} {H.coq_bool(o['uniq'])} "
+            f"{H.coq_opt(o['nt'], H.coq_text)} {H.coq_opt(o['et'], H.coq_text)})")
+
+
+def chart_lines(tree, st, o):
+    """the emitted chart as a list of lines, or -1 when the export raises"""
+    buf = io.StringIO()
+    kw = dict(as_markdown=o["md"], direction=o["dir"], title=o["title"], headers=o["headers"], unique_nodes=o["uniq"],
+              node_mapper=o["nt"], edge_mapper=o["et"])
+    try:
+        if st is None:
+            tree.to_mermaid_flowchart(buf, add_root=o["add"], **kw)
+        else:
+            st.to_mermaid_flowchart(buf, add_self=o["add"], **kw)
+    except Exception:  # noqa: BLE001
+        return -1
+    text = buf.getvalue()
+    if not text.endswith("\n"):
+        raise ParseError("chart: last line not terminated")
+    return text[:-1].split("\n")
+
+
+def chart_oracle(tree, st, typed, o, lines):
+    """documented layout of the chart + (for the name-carrying edge template) one line per exported edge"""
+    start = tree._root if st is None else st
+    below = B.all_nodes(start)
+    a, u = o["add"], o["uniq"]
+    tag = f"chart {o}"
+    bad_edge_t = o["et"] is not None and "{kind}" in o["et"]
+    bad_node_t = o["nt"] is not None and "{nope}" in o["nt"]
+    n_edges = sum(1 for n in below if a or n._parent is not start)
+    must_raise = (bad_node_t and len(below) > 0) or (bad_edge_t and n_edges > 0)
+    if lines == -1:
+        return None if must_raise else f"chart-error: {tag}: raised"
+    if must_raise:
+        return f"chart-error: {tag}: an unknown template field was accepted"
+    head = []
+    if o["md"]:
+        head.append("```mermaid")
+    if o["title"]:
+        head += ["---", "title: " + (start.name if o["title"] is True else o["title"]), "---"]
+    head += ["", "%% Generator: " + GENERATOR, "", "flowchart " + o["dir"]]
+    if o["headers"]:
+        head += ["", "%% Headers:"] + list(o["headers"])
+    head += ["", "%% Nodes:"]
+    if lines[:len(head)] != head:
+        return f"chart-head: {tag}: got {lines[:len(head)]!r}"
+    body = lines[len(head):]
+    if o["md"]:
+        if not body or body[-1] != "```":
+            return f"chart-tail: {tag}: markdown fence not closed"
+        body = body[:-1]
+    try:
+        cut = body.index("%% Edges:")
+    except ValueError:
+        return f"chart-body: {tag}: no edge section"
+    nodes, edges = body[:cut], body[cut + 1:]
+    if not nodes or nodes[-1] != "":
+        return f"chart-body: {tag}: node section not closed by an empty line"
+    nodes = nodes[:-1]
+    exp = ([start] if a else []) + below
+    nkeys = len({(type(k).__name__, k) for k in ((n._data_id if u else H.nid(n)) for n in exp)})
+    if len(nodes) != nkeys:
+        return f"chart-nodes: {tag}: {len(nodes)} node lines for {nkeys} distinct keys"
+    if len(edges) != n_edges:
+        return f"chart-edges: {tag}: {len(edges)} edge lines, expected {n_edges}"
+    if o["nt"] == NODE_T_BRACKET:
+        for ln in nodes[1 if a else 0:]:
+            if not re.match(r'^\d+\("<[^"]*>"\)$', ln):
+                return f"chart-nodes: {tag}: node line {ln!r} ignores the node template"
+    if o["et"] == EDGE_T_NAMES:
+        want = [(n._parent.name, n.name) for n in below if a or n._parent is not start]
+        idx_of = {}
+        for ln, (pn, cn), n in zip(edges, want, [n for n in below if a or n._parent is not start]):
+            m = _EDGE_T_NAMES_RE.match(ln)
+            if not m:
+                return f"chart-edges: {tag}: line {ln!r}"
+            if (m.group(3), m.group(4)) != (pn, cn):
+                return f"chart-edges: {tag}: line {ln!r} expected names {pn!r} -> {cn!r}"
+            for node, i in ((n._parent, int(m.group(1))), (n, int(m.group(2)))):
+                k = (type(node._data_id).__name__, node._data_id) if u else ("N", H.nid(node))
+                if idx_of.setdefault(k, i) != i:
+                    return f"chart-edges: {tag}: key {k} drawn as {i} and {idx_of[k]}"
+        if len(set(idx_of.values())) != len(idx_of):
+            return f"chart-edges: {tag}: two keys share an index"
+    return None
+
 # ---------------------------------------------------------------------------
 class Prop:
     id = "C17"
@@ -329,6 +440,7 @@ class Prop:
     def descs(self, tier, rng):
         nmax = 4 if tier == "quick" else 5
         yield from CORPUS
+        ci = 0
         for n in range(1, nmax + 1):
             for shape in H.forests(n):
                 for pi, pat in enumerate(self.PATTERNS):
@@ -336,7 +448,9 @@ class Prop:
                         if n >= 4 and pat in ("ints", "strids") and typed != (pi % 2 == 0):
                             continue   # thin out: these patterns do not depend on typed-ness much
                         univ, nodes = self.label(pat, shape, typed)
-                        yield dict(typed=typed, univ=univ, nodes=nodes, starts="all")
+                        ci += 1
+                        charts = [[0, CHART_OPTS[ci % len(CHART_OPTS)]], [1, CHART_OPTS[(ci // 2 + 3) % len(CHART_OPTS)]]]
+                        yield dict(typed=typed, univ=univ, nodes=nodes, starts="all", charts=charts)
         nrand = 40 if tier == "quick" else 400
         for _ in range(nrand):
             n = rng.randint(5, 12)
@@ -347,11 +461,19 @@ class Prop:
                 continue
             univ, nodes = self.label("random", shape, typed, rng)
             starts = sorted(rng.sample(range(1, n + 1), 3))
-            yield dict(typed=typed, univ=univ, nodes=nodes, starts=[0] + starts)
+            charts = [[rng.choice([0] + starts), dict(
+                md=rng.random() < 0.5, dir=rng.choice(["TD", "LR", "RL", "TB", "BT"]),
+                title=rng.choice([True, False, None, "", "T x"]), headers=rng.choice([None, [], ["%% h1", "%% h2"]]),
+                add=rng.random() < 0.5, uniq=rng.random() < 0.5,
+                nt=rng.choice([None, None, NODE_T_BRACKET, "{node.name}"]),
+                et=rng.choice([None, None, EDGE_T_NAMES, "{to_id} <-- {from_id}"]))] for _ in range(3)]
+            yield dict(typed=typed, univ=univ, nodes=nodes, starts=[0] + starts, charts=charts)
 
     def shrink_candidates(self, desc):
         for nodes in B.drop_one_node(desc["nodes"]):
-            yield dict(desc, nodes=nodes, starts="all")
+            yield dict(desc, nodes=nodes, starts="all", charts=[[min(i, 1), o] for i, o in desc.get("charts", [])])
+        for k in range(len(desc.get("charts", []))):
+            yield dict(desc, charts=desc["charts"][:k] + desc["charts"][k + 1:])
 
     # ----- one case
     def run(self, desc) -> Case:
@@ -372,13 +494,29 @@ class Prop:
                 fail = self.oracle(tree, st, typed, native)
                 if fail:
                     fail = f"{fail} [start={'tree' if st is None else H.nid(st) - first + 1}]"
-        coq = f"({H.coq_rt(tree._root, U)}, {H.coq_list(H.z(0 if s is None else H.nid(s)) for s in starts)})"
+        chart_obs, chart_terms = [], []
+        for i, o in desc.get("charts", []):
+            if i > len(nodes):
+                continue
+            cst = None if i == 0 else nodes[i - 1]
+            lines = chart_lines(tree, cst, o)
+            chart_obs.append(lines)
+            chart_terms.append(f"({H.z(0 if cst is None else H.nid(cst))}, {coq_mopts(o)})")
+            if fail is None:
+                fail = chart_oracle(tree, cst, typed, o, lines)
+                if fail:
+                    fail = f"{fail} [start={i}]"
+        obs = [obs, chart_obs]
+        coq = (f"({H.coq_rt(tree._root, U)}, {H.coq_list(H.z(0 if s is None else H.nid(s)) for s in starts)}, "
+               f"{H.coq_list(chart_terms)})")
         dids = Counter((type(n._data_id).__name__, n._data_id) for n in nodes)
         anc_clone = any(_has_desc_clone(n) for n in nodes)
         return Case(desc=desc, coq_input=coq, impl_obs=obs, oracle_fail=fail,
                     nontrivial=len(nodes) >= 2,
-                    key=H.digest([desc["nodes"], typed, desc["starts"]]),
-                    stats=dict(nodes=len(nodes), starts=len(starts), clones=sum(1 for v in dids.values() if v > 1),
+                    key=H.digest([desc["nodes"], typed, desc["starts"], desc.get("charts")]),
+                    stats=dict(nodes=len(nodes), starts=len(starts), charts=len(chart_obs),
+                               chart_errors=sum(1 for c in chart_obs if c == -1),
+                               clones=sum(1 for v in dids.values() if v > 1),
                                start_clone_below=anc_clone, typed=typed,
                                falsy_ids=sum(1 for n in nodes if not n._data_id)))
 
@@ -581,6 +719,9 @@ CORPUS = [
          nodes=[[0, None, 0, [[1, None, None, []]]], [2, None, "", [[3, None, None, []]]]], starts="all"),
     # a node that shares the system root's data_id: the root's definition must not be repeated (D36 through the Tree API)
     dict(typed=False, univ=["s:a", "s:b"], nodes=[[0, None, None, [[1, None, "__root__", [[0, None, None, []]]]]]], starts="all"),
+    # D171: node_mapper and edge_mapper both given as strings
+    dict(typed=True, univ=["s:a", "s:b"], nodes=[[0, "k", None, []]], starts="all",
+         charts=[[0, dict(md=True, dir="BT", title=False, headers=[], add=True, uniq=False, nt=NODE_T_BRACKET, et=EDGE_T_NAMES)]]),
     # typed, with an empty kind and a clone of the start node below it
     dict(typed=True, univ=["s:a", "s:b", "s:c"],
          nodes=[[0, "k", None, [[1, "", None, [[0, "m", None, []], [2, "k", None, []]]]]], [2, "m", None, []]], starts="all"),
